@@ -214,7 +214,8 @@ def main():
             programs=res.traces_validated, disagreements_checked=len(res.mismatches),
             histogram=res.hist, mismatches=len(res.mismatches), oracle_failures=len(res.oracle_failures),
             known_findings_hit=sorted(reported_known), proof_problems=proof_problems, infra=res.infra[:5],
-            explanation=spec.get('explanation', ''), lean_build_s=round(build_s, 1), notes=res.notes)
+            explanation=spec.get('explanation', ''), lean_build_s=round(build_s, 1), notes=res.notes,
+            source_functions_changed_since_model_baseline=props.source_changed()[:40])
         if not obligations:
             cov.pop('obligations'); cov.pop('discharged')
         ev = dict(property_id=prop, tier=a.tier, seed=seed, level=level, coverage=cov,
